@@ -9,6 +9,7 @@ import (
 	"testing/synctest"
 	"time"
 
+	"github.com/basecamp/kamal-proxy/internal/verif/memnet"
 	"github.com/basecamp/kamal-proxy/internal/verif/vsched"
 	"github.com/basecamp/kamal-proxy/internal/verif/vsync"
 )
@@ -170,6 +171,62 @@ func c18Body(c c18cfg, controlled bool, leak *map[string]int) func(w *World) {
 			}
 		}
 	}
+}
+
+// c18DeployTimeoutDuringProbe: the deploy timeout of a deploy / rollout deploy expires while a probe of the new target
+// is under way (answered 200, body not complete; or not answered at all): the command fails, nothing panics, and the
+// proxy keeps serving.
+func c18DeployTimeoutDuringProbe(cmd string, probe memnet.ProbeStep) *Scenario {
+	sc := &Scenario{Name: fmt.Sprintf("C18 deploy timeout during a probe (%s) cmd=%s", probe.Kind, cmd), Horizon: 40 * time.Second, Bounds: &Bounds{D: 2, S: 0}}
+	var c *CmdObs
+	var after *ReqObs
+	sc.Run = func(w *World) {
+		c, after = nil, nil
+		w.AddTarget("oa:80")
+		w.AddTarget("slow:80", probe)
+		w.Deploy(deployArgs("s1", []string{"oa:80"}, []string{"a.example.com"}, nil))
+		time.Sleep(100 * time.Millisecond)
+		var wg vsync.WaitGroup
+		wg.Add(2)
+		w.S.SetWindow(true)
+		vsched.GoTagged("cmd", func() {
+			defer wg.Done()
+			if cmd == "deploy" {
+				a := deployArgs("s1", []string{"slow:80"}, []string{"a.example.com"}, nil)
+				a.DeployTimeout = vProbeTO - 150*time.Millisecond // expires while the first probe is still under way
+				c = w.Deploy(a)
+			} else {
+				c = w.runCmd("rollout-deploy", "s1 [slow:80]", func() error {
+					var r bool
+					return w.Cmd.RolloutDeploy(RolloutDeployArgs{Service: "s1", TargetURLs: []string{"slow:80"}, DeployTimeout: vProbeTO - 150*time.Millisecond, DrainTimeout: vD}, &r)
+				})
+			}
+		})
+		vsched.GoTagged("client", func() {
+			defer wg.Done()
+			w.Do(ReqSpec{ID: "during", Host: "a.example.com"})
+		})
+		wg.Wait()
+		w.S.SetWindow(false)
+		time.Sleep(2 * vI)
+		w.List()
+		after = w.Do(ReqSpec{ID: "after", Host: "a.example.com"})
+	}
+	sc.Check = func(w *World) []Violation {
+		var vs []Violation
+		if c != nil && c.Done && c.Err == nil {
+			vs = append(vs, Violation{"C18", "deploy-succeeded-without-a-completed-probe", fmt.Sprintf("%s returned nil although its deploy timeout expired during the first probe", c.Name)})
+		}
+		if after == nil || after.Status != 200 || after.ServedBy() != "oa:80" {
+			s := "none"
+			if after != nil {
+				s = after.Summary()
+			}
+			vs = append(vs, Violation{"C18", "proxy-not-serving-after-failed-deploy", s})
+		}
+		return vs
+	}
+	return sc
 }
 
 func c18Scenario(c c18cfg) *Scenario {
@@ -336,6 +393,11 @@ func checkC18(t *testing.T, job *Job, res *Result) {
 				}
 			}
 			scs = append(scs, sc)
+		}
+		for _, cmd := range []string{"deploy", "rollout-deploy"} {
+			for _, pr := range []memnet.ProbeStep{pStallBody(), pHang(), pSlow()} {
+				scs = append(scs, c18DeployTimeoutDuringProbe(cmd, pr))
+			}
 		}
 		b := Bounds{D: 1, S: 1, Total: 1}
 		res.Bounds = "quick: every configuration with <=1 deviation (thread or stall), every 45th configuration with <=2 thread deviations; single command + single request configurations with <=2 deviations"
